@@ -149,6 +149,8 @@ type parseCase struct {
 	HasDigits  bool   `json:"has_digits"`
 	HasPeriod  bool   `json:"has_period"`
 	MustParse  bool   `json:"must_parse"`
+	// Repeated: the texts of a parameter written twice (DigitsText / PeriodText unused then)
+	Repeated []string `json:"repeated,omitempty"`
 }
 
 var intRe = regexp.MustCompile(`^[+-]?[0-9]+$`)
@@ -208,6 +210,25 @@ func judgeParse(c *Ctx, k parseCase) {
 			cls, what = field+"-parameter-silently-ignored", "ParseOTPAuthURL reports the default "+field+" although the URL writes another number (the parameter was dropped without an error)"
 		}
 		r.Violate("C16|ParseOTPAuthURL|"+cls+"|", what, "parse", k, "failure or exactly "+text, fmt.Sprint(got))
+	}
+	if len(k.Repeated) > 0 {
+		field, got, def := "digits", uint64(back.Digits), uint64(6)
+		if k.HasPeriod {
+			field, got, def = "period", uint64(back.Period), uint64(30)
+		}
+		okv, anyNumber := false, false
+		for _, t := range k.Repeated {
+			if v, isNum := numberWritten(t); isNum {
+				anyNumber = true
+				if new(big.Int).SetUint64(got).Cmp(v) == 0 {
+					okv = true
+				}
+			}
+		}
+		if anyNumber && !okv || !anyNumber && got != def {
+			r.Violate("C16|ParseOTPAuthURL|repeated-"+field+"-parameter|", "with a "+field+" parameter written twice, ParseOTPAuthURL succeeds with a number that is none of those written", "parse", k, "failure or one of "+strings.Join(k.Repeated, " / "), fmt.Sprint(got))
+		}
+		return
 	}
 	if k.HasDigits {
 		check("digits", k.DigitsText, uint64(back.Digits), 6)
@@ -342,6 +363,20 @@ func c16ParseCases(c *Ctx, emit func(parseCase)) {
 			emit(parseCase{Text: "otpauth://totp/I:a?secret=AAAA&" + junk[0] + "digits=" + n + junk[1], DigitsText: n, HasDigits: true})
 			emit(parseCase{Text: "otpauth://totp/I:a?secret=AAAA&" + junk[0] + "period=" + n + junk[1], PeriodText: n, HasPeriod: true})
 			emit(parseCase{Text: "otpauth://hotp/I:a?" + junk[0] + "digits=" + n + junk[1] + "&secret=AAAA", DigitsText: n, HasDigits: true})
+		}
+	}
+	// a parameter written more than once: the parse may fail, or return one of the numbers written; an empty first
+	// occurrence must not make the parser report the default in place of the number that follows
+	for _, pair := range [][2]string{{"", "8"}, {"8", ""}, {"7", "8"}, {"", "300"}, {"6", "300"}, {"", "-1"}, {"10", "10"}, {"", "60"}, {"45", "60"}} {
+		for _, key := range []string{"digits", "period"} {
+			text := "otpauth://totp/I:a?secret=AAAA&" + key + "=" + pair[0] + "&" + key + "=" + pair[1]
+			k := parseCase{Text: text, Repeated: []string{pair[0], pair[1]}}
+			if key == "digits" {
+				k.HasDigits = true
+			} else {
+				k.HasPeriod = true
+			}
+			emit(k)
 		}
 	}
 	for _, n := range nums {
